@@ -21,7 +21,7 @@ after it returned true.  (4) Worker provisioning: the spawn loop runs 0..num_wor
 (5) Health check: the handler writes the constant documented response; the listener is registered only when a port is configured; registration is level-triggered or
 the handler accepts until WouldBlock.  (6) /repo/example.cfg (parsed as data): every key is a documented YAML key, every value is within the documented range.
 """
-ASSUMPTIONS = ["conditions of debug_assert!/debug_assert_eq! that the prover cannot discharge are taken to hold (debug-only, absent from a release build)"]
+ASSUMPTIONS = ["the release configuration is analysed (-C debug-assertions=off, overflow checks kept as obligations): debug_assert!() and cfg(debug_assertions) code is compiled out and not part of the decided behaviour"]
 NOT_DECIDED = "that workers stay alive and replies arrive (process liveness, thread timing)"
 TRUSTED = ["SO_REUSEPORT lets several sockets bind one port", "mio level-triggered registrations re-fire while the source is readable"]
 
